@@ -57,7 +57,9 @@ func genCase(t *rapid.T) Case {
 		}
 		if a.Fn == "count" {
 			a.Lit = float64(rapid.IntRange(1, 4).Draw(t, "k"))
-			if a.Op == "<" || a.Op == "<=" {
+			if (a.Op == "<" || a.Op == "<=") && !(a.Col != "" && rapid.Bool().Draw(t, "countbelow")) {
+				// count(*) < k holds at once for every row; over a column (count of its non-NULL values) it is kept half
+				// of the time: such a predicate already holds on a group that has seen no usable value
 				a.Op = ">="
 			}
 		} else {
@@ -77,6 +79,21 @@ func genCase(t *rapid.T) Case {
 		}
 	}
 	c.NoIDs = rapid.IntRange(0, 3).Draw(t, "noids") == 0
+	for _, a := range c.Atoms {
+		if a.Fn == "count" && a.Col != "" && (a.Op == "<" || a.Op == "<=") && rapid.Bool().Draw(t, "feedless") {
+			// a predicate that holds on an empty group: let some rows feed no aggregate at all (no collect(id), no
+			// count(*) in the SELECT list; v and the counted column NULL in the same row happens by itself)
+			c.NoIDs = true
+			var sel []string
+			for _, f := range c.Selected {
+				if f != "count" {
+					sel = append(sel, f)
+				}
+			}
+			c.Selected = sel
+			break
+		}
+	}
 	if c.NoIDs && len(c.Selected) == 0 {
 		c.Selected = []string{"sum"}
 	}
